@@ -295,7 +295,14 @@ pub fn run_property(p: &dyn Property, cfg: &RunCfg) -> i32 {
           }
           continue;
         }
-        match std::fs::read(&l.out).ok().and_then(|b| serde_json::from_slice::<Agg>(&b).ok()) {
+        // (a library that reads freed memory can hand the harness strings that
+        // are not UTF-8; the worker's report is then read lossily rather than
+        // thrown away)
+        match std::fs::read(&l.out).ok().and_then(|b| {
+          serde_json::from_slice::<Agg>(&b)
+            .ok()
+            .or_else(|| serde_json::from_str::<Agg>(&String::from_utf8_lossy(&b)).ok())
+        }) {
           Some(a) if status.success() => aggs.push(a),
           _ => {
             let at = std::fs::read_to_string(&marker).unwrap_or_default();
